@@ -347,6 +347,8 @@ class HistogramND(HistogramBase):
     def fill(self, value: ArrayLike, weight: float = 1, **kwargs):
         self._coerce_dtype(type(weight))
         value_array = np.asarray(value)
+        if value_array.dtype.kind == "f" and np.isnan(value_array).any():
+            return None  # NaN is skipped, as in fill_n and at construction
         for i, binning in enumerate(self._binnings):
             if binning.is_adaptive():
                 bin_map = binning.force_bin_existence(value_array[i])
